@@ -52,10 +52,10 @@ CONTRACTS = {
                         "modifies": ["self._program._type", "_PARAMS"], "raises": "any", "spec": "spec_exitDeclaretype", "props": ["C02", "C12", "C15", "C18"],
                         "families": ["load_denote", "tdm"]},
     "exitExpressionvar": {"qual": "BlackbirdListener.exitExpressionvar", "params": ["self", "ctx"], "reads": ["_VAR", "_PARAMS"],
-                          "modifies": ["_VAR", "_PARAMS"], "raises": "any", "spec": "spec_exitExpressionvar", "props": ["C05", "C11", "C04", "C18"],
+                          "modifies": ["_VAR", "_PARAMS"], "raises": "any", "spec": "spec_exitExpressionvar", "props": ["C05", "C11", "C04", "C18", "C02"],
                           "families": ["decl_types", "illformed"]},
     "exitArrayvar": {"qual": "BlackbirdListener.exitArrayvar", "params": ["self", "ctx"], "reads": ["_VAR", "_PARAMS", "self._program._type"],
-                     "modifies": ["_VAR", "_PARAMS"], "raises": "any", "spec": "spec_exitArrayvar", "props": ["C05", "C04", "C15", "C11", "C18"],
+                     "modifies": ["_VAR", "_PARAMS"], "raises": "any", "spec": "spec_exitArrayvar", "props": ["C05", "C04", "C15", "C11", "C18", "C02"],
                      "families": ["decl_types", "template_subst", "tdm", "illformed"]},
     "exitStatement": {"qual": "BlackbirdListener.exitStatement", "params": ["self", "ctx"],
                       "reads": ["_VAR", "_PARAMS", "self._in_for", "self._includes", "self._program._operations", "self._program._modes"],
@@ -69,11 +69,11 @@ CONTRACTS = {
                     "raises": "any", "spec": "spec_exitForloop", "props": ["C06", "C11", "C18"], "families": ["forloop_unroll", "illformed"]},
     "enterProgram": {"qual": "BlackbirdListener.enterProgram", "params": ["self", "ctx"], "reads": ["self._program._var", "self._program._parameters"],
                      "modifies": ["_VAR", "_PARAMS", "self._program._var", "self._program._parameters"], "raises": [], "spec": "spec_enterProgram",
-                     "props": ["C12", "C04"], "families": ["history"]},
+                     "props": ["C12", "C04", "C11", "C07"], "families": ["history"]},
     "exitProgram": {"qual": "BlackbirdListener.exitProgram", "params": ["self", "ctx"],
                     "reads": ["_VAR", "_PARAMS", "self._program._var", "self._program._parameters"],
                     "modifies": ["_VAR", "_PARAMS", "self._program._var", "self._program._parameters"], "raises": "any", "spec": "spec_exitProgram",
-                    "props": ["C04", "C12", "C15"], "families": ["template_subst", "tdm", "history"]},
+                    "props": ["C04", "C12", "C15", "C11", "C07"], "families": ["template_subst", "tdm", "history"]},
     "exitInclude": {"qual": "BlackbirdListener.exitInclude", "params": ["self", "ctx"], "reads": ["_VAR", "_PARAMS", "self._includes", "self._cwd"],
                     "modifies": ["self._includes", "_VAR", "_PARAMS"], "raises": "any", "spec": "spec_exitInclude", "props": ["C07", "C10", "C12"],
                     "families": ["include_inline", "syntax_errors"]},
